@@ -79,7 +79,7 @@ func checkVolume(c volumeCase) (msg string, bad bool) {
 	var pos, w, start int64 // written, parsed, start of buffer
 	const histLen = 1 << 20
 	hist := make([]byte, 0, 2*histLen) // the last bytes of the expansion of parsed blocks
-	var histEnd int64                   // stream offset behind hist
+	var histEnd int64                  // stream offset behind hist
 	near := func(x int64) bool {
 		for _, m := range []int64{1 << 31, 1 << 32} {
 			if d := x - m; d > -int64(c.ParseAt)<<20 && d < int64(c.ParseAt)<<20 {
@@ -279,6 +279,7 @@ func TestC19Volume(t *testing.T) {
 		kind := kind
 		t.Run(kind, func(t *testing.T) {
 			rapid.Check(t, func(t *rapid.T) {
+				decorrelate(t, kind)
 				c := volumeCase{Run: true, Seed: rapid.IntRange(0, 2).Draw(t, "seed"), ParseAt: 2,
 					Beyond: rapid.SampledFrom([]int{3 << 20, 1 << 20, 70_000}).Draw(t, "beyond")}
 				c.Cfg.Kind = kind
@@ -357,6 +358,7 @@ func TestC19BigBuffer(t *testing.T) {
 		kind := kind
 		t.Run(kind, func(t *testing.T) {
 			rapid.Check(t, func(t *rapid.T) {
+				decorrelate(t, kind)
 				c := bigBufferCase{Kind: kind,
 					Beyond: rapid.SampledFrom([]int{4096 + 64, 65536, 20_000}).Draw(t, "beyond"),
 					Window: rapid.SampledFrom([]int{1 << 16, 4096, 1 << 20}).Draw(t, "window"),
